@@ -5,6 +5,7 @@ package main
 
 import (
 	"context"
+	"fmt"
 	"math"
 	"sort"
 	"sync/atomic"
@@ -245,6 +246,11 @@ func genDataset(r *gen.Rand) *dataset {
 	}
 	if r.Chance(1, 2) {
 		add("float", "__name__", "b_bucket", "job", "a", "le", "bogus")
+	}
+	// a wide metric: gives aggregations, binary operators and range functions enough work per
+	// query for concurrently running queries to overlap inside them
+	for i := 0; i < 160; i++ {
+		add("float", "__name__", "many", "g", fmt.Sprintf("g%d", i%7), "i", fmt.Sprintf("%d", i))
 	}
 	add("float", "__name__", "foo_total", "job", "a", "instance", "i0")
 	add("float", "__name__", "dup", "job", "a", "__type__", "counter")
